@@ -19,13 +19,17 @@ var zzC04Alpha = [][]zzOp{
 	},
 	{ // 2 (after a setup with a split literal node and an unrelated route): a sibling goes away and the survivor gets a new
 		// method; prefixes that end exactly on a node boundary, inside a segment, and on the parent
-		zzRm("/p/ab"), zzH("/p/au", "POST"), zzPCl("/p/a"), zzPCl("/p/"), zzPCl("/p"), zzRm("/k", "PUT"), zzH("/p/ab", "POST"), zzRm("/p/au"), zzPCl("/k"),
+		zzRm("/p/ab"), zzH("/p/au", "POST"), zzPCl("/p/a"), zzPCl("/p/"), zzPCl("/p"), zzRm("/k", "PUT"), zzH("/p/ab", "POST"), zzRm("/p/au"), zzPCl("/k"), zzRm("/p/au", "GET", "GET"),
+	},
+	{ // 3 (only without WithTrace): TRACE registered by hand is an ordinary method
+		zzH("/t", "TRACE"), zzH("/t", "GET"), zzRm("/t"), zzRm("/t", "TRACE"), zzCl(), zzH("/u", "TRACE", "POST"), zzRm("/u", "POST"), zzPCl("/t"),
 	},
 }
 
 // zzC04Setup: operations applied before the explored history (per alphabet).
 var zzC04Setup = [][]zzOp{nil, nil,
 	{zzH("/p/au", "GET"), zzH("/p/ab", "GET"), zzH("/k", "DELETE", "PUT")},
+	nil,
 }
 
 var zzAllMethods = []string{"GET", "POST", "DELETE", "PUT", "PATCH", "CONNECT", "TRACE"}
